@@ -75,7 +75,7 @@ theorem initialEnter_errLe (m : Mach U) : World.ErrLe m.w m.initialEnter.w := by
   generalize (enterPrep rr.1.w rr.2).snapshot rr.1.root false false = W3 at h4 hW3
   rw [heq]
   intro h
-  simp only [updateActivity_w] at h
+  simp only [w_updateActivity] at h
   have a1 : W3.err = none := by rw [h4] at h; exact (Node.enter_ext _ _).err h
   have a2 : rr.1.w.err = none := hW3.err ▸ a1
   have a3 : m2.w.err = none := by rw [h3] at a2; exact rounds_errLe true _ _ _ _ a2
@@ -93,7 +93,7 @@ theorem initialEnter_inv {base : Node} {m : Mach U} (hi : DormInv base m) (he : 
   generalize (m.w.clearTargets.freshControl).snapshot m.root true false = W0 at h1 hW0
   generalize (enterPrep rr.1.w rr.2).snapshot rr.1.root false false = W3 at h4 hW3
   rw [heq] at he ⊢
-  simp only [updateActivity_w] at he
+  simp only [w_updateActivity] at he
   have a1 : W3.err = none := by rw [h4] at he; exact (Node.enter_ext _ _).err he
   have a2 : rr.1.w.err = none := hW3.err ▸ a1
   have a3 : m2.w.err = none := by rw [h3] at a2; exact rounds_errLe true _ _ _ _ a2
@@ -120,7 +120,7 @@ theorem initialEnter_inv {base : Node} {m : Mach U} (hi : DormInv base m) (he : 
   refine ⟨⟨?_, ?_, ?_⟩, ?_⟩
   · simpa using s5.trans (s4.trans i3.shape)
   · simpa using l5
-  · simp only [updateActivity_w]; rw [h4]; exact g3.ext (Node.enter_ext _ _)
+  · simp only [w_updateActivity]; rw [h4]; exact g3.ext (Node.enter_ext _ _)
   · simpa using n5
 
 end Mach
@@ -315,7 +315,7 @@ theorem reset_errLe (m : Mach U) : World.ErrLe m.w m.reset.w := by
   obtain ⟨e1, r2, e3, h1, h2, h3, heq⟩ := reset_spec m
   rw [heq]
   intro h
-  simp only [updateActivity_w] at h
+  simp only [w_updateActivity] at h
   have a3 : r2.2.err = none := by
     rw [h3] at h; have := (Node.enter_ext _ _).err h; simpa using this
   have a2 : e1.2.err = none := by
@@ -330,7 +330,7 @@ theorem reset_inv {base : Node} {m : Mach U} (hs : m.root.SameShape base) (hg : 
     LiveInv base m.reset ∧ m.reset.root.NoMarks := by
   obtain ⟨e1, r2, e3, h1, h2, h3, heq⟩ := reset_spec m
   rw [heq] at he ⊢
-  simp only [updateActivity_w] at he
+  simp only [w_updateActivity] at he
   have a3 : r2.2.err = none := by
     rw [h3] at he; have := (Node.enter_ext _ _).err he; simpa using this
   -- exit, then `registry.clear()`
@@ -372,7 +372,7 @@ theorem loadActive_errLe (m : Mach U) (st : List Bool) : World.ErrLe m.w (m.load
   split
   · intro h; exact absurd h (World.fail'_err _ _)
   · intro h
-    simp only [updateActivity_w] at h
+    simp only [w_updateActivity] at h
     have := (Node.commit_ext _ _).err h
     simpa using this
 
@@ -385,7 +385,7 @@ theorem loadActive_inv {base : Node} {m : Mach U} (st : List Bool) (hi : LiveInv
   · next root st' hload =>
     intro he
     dsimp only at he ⊢
-    simp only [updateActivity_w] at he
+    simp only [w_updateActivity] at he
     obtain ⟨hv, hrok, hres⟩ := Node.loadRequested_spec _ st root st' hload
     have hv0 : root.view true false false = m.root.view true false false := by
       rw [hv, Node.view_tff_of_tft (Node.noResumable_view true _), Node.view_tff_of_ttf (Node.clearMarks_view true true _)]
@@ -396,9 +396,9 @@ theorem loadActive_inv {base : Node} {m : Mach U} (st : List Bool) (hi : LiveInv
     have s2 : root.commitT.SameShape root := Node.commitT_view root
     obtain ⟨l3, s3⟩ := withResumableOf_live l2 hrok s2
     refine ⟨?_, ?_, ?_⟩
-    · simp only [updateActivity_root, Node.commit_fst]; exact s3.trans (s2.trans s1)
-    · simp only [updateActivity_root, Node.commit_fst]; exact l3
-    · simp only [updateActivity_w]
+    · simp only [root_updateActivity, Node.commit_fst]; exact s3.trans (s2.trans s1)
+    · simp only [root_updateActivity, Node.commit_fst]; exact l3
+    · simp only [w_updateActivity]
       refine World.Good.ext (World.Prep.good (w := m.w) ⟨?_, ?_, ?_, .inl rfl⟩ hi.good s1 (.inl l1.act)) (Node.commit_ext _ _)
       all_goals simp
 
@@ -407,7 +407,7 @@ theorem loadEnter_errLe (m : Mach U) (st : List Bool) : World.ErrLe m.w (m.loadE
   split
   · intro h; exact absurd h (World.fail'_err _ _)
   · intro h
-    simp only [updateActivity_w] at h
+    simp only [w_updateActivity] at h
     have := (Node.enter_ext _ _).err h
     simpa using this
 
@@ -420,7 +420,7 @@ theorem loadEnter_inv {base : Node} {m : Mach U} (st : List Bool) (hi : DormInv 
   · next root st' hload =>
     intro he
     dsimp only at he ⊢
-    simp only [updateActivity_w] at he
+    simp only [w_updateActivity] at he
     obtain ⟨hv, hrok, hres⟩ := Node.loadRequested_spec _ st root st' hload
     have d1 : root.DRes := ⟨(Node.clean_congr hv).mpr hi.dorm.clean, hres, hrok⟩
     have s1 : root.SameShape base := (Node.SameShape.of_view hv).trans hi.shape
@@ -494,7 +494,7 @@ theorem replayTransitions_errLe (m : Mach U) (ts : List Transition) : World.ErrL
   · split
     · refine e0.trans (e1.trans ?_)
       intro h
-      simp only [updateActivity_w] at h
+      simp only [w_updateActivity] at h
       rw [h2] at h
       have := (Node.commit_ext _ _).err h
       simpa [World.withPrevious] using this
@@ -516,7 +516,7 @@ theorem replayTransitions_inv {base : Node} {m : Mach U} (ts : List Transition) 
     split at he
     · next hch =>
       rw [if_pos hch]
-      simp only [updateActivity_w] at he
+      simp only [w_updateActivity] at he
       have a1 : ar.1.w.err = none := by
         rw [h2] at he
         have := (Node.commit_ext _ _).err he
@@ -525,7 +525,7 @@ theorem replayTransitions_inv {base : Node} {m : Mach U} (ts : List Transition) 
       obtain ⟨l2, s2⟩ : c.1.Live ∧ c.1.SameShape ar.1.root := by rw [h2]; exact Node.commit_live _ i1.live
       obtain ⟨l3, n3, s3⟩ := Node.clearMarks_live l2
       refine ⟨by simpa using s3.trans (s2.trans i1.shape), by simpa using l3, ?_⟩
-      simp only [updateActivity_w]
+      simp only [w_updateActivity]
       rw [h2]
       refine World.Good.ext (World.Prep.good (w := ar.1.w) ⟨?_, ?_, ?_, .inl rfl⟩ i1.good i1.shape (.inl i1.live.act))
         (Node.commit_ext _ _)
@@ -559,7 +559,7 @@ theorem replayEnter_errLe (m : Mach U) (ts : List Transition) : World.ErrLe m.w 
   · split
     · refine e0.trans (e1.trans (e2.trans ?_))
       intro h
-      simp only [updateActivity_w] at h
+      simp only [w_updateActivity] at h
       rw [h3] at h
       have := (Node.enter_ext _ _).err h
       simpa [World.withPrevious] using this
@@ -582,7 +582,7 @@ theorem replayEnter_inv {base : Node} {m : Mach U} (ts : List Transition) (hi : 
     rw [if_neg hts]
     have a2 : ar.1.w.err = none := by
       split at he
-      · simp only [updateActivity_w] at he
+      · simp only [w_updateActivity] at he
         rw [h3] at he
         have := (Node.enter_ext _ _).err he
         simpa [World.withPrevious] using this
@@ -603,7 +603,7 @@ theorem replayEnter_inv {base : Node} {m : Mach U} (ts : List Transition) (hi : 
       obtain ⟨l3, s3⟩ : e.1.Live ∧ e.1.SameShape ar.1.root := by rw [h3]; exact Node.enter_live _ i2.dres
       obtain ⟨l4, n4, s4⟩ := Node.clearMarks_live l3
       refine ⟨⟨by simpa using s4.trans (s3.trans i2.shape), by simpa using l4, ?_⟩, by simpa using n4⟩
-      simp only [updateActivity_w]
+      simp only [w_updateActivity]
       rw [h3]
       refine World.Good.ext (World.Prep.good (w := ar.1.w) ⟨?_, ?_, ?_, .inl rfl⟩ i2.good i2.shape (.inr i2.dres.clean))
         (Node.enter_ext _ _)
